@@ -5,6 +5,7 @@
 pub mod c05;
 pub mod c06;
 pub mod c13;
+pub mod c19;
 pub mod pghash;
 pub mod sqlgen;
 
